@@ -22,7 +22,9 @@ from .c11 import cq, fr_of, jq, _playout, _some_legal, _dyadic_dist
 ID = "C12"
 THEOREMS = ["C12_rows_in_order", "C12_padding_correct", "C12_dense_target", "C12_dense_target_last_wins",
             "C12_dedup_keys", "C12_dedup_keys_order", "C12_dedup_mean", "C12_dedup_nodup_id",
-            "C12_dedup_mask_positions"]
+            "C12_dedup_mask_positions",
+            "C12_real_enc_is_encode", "C12_dedup_distinct_positions", "C12_first_pos_at_reading",
+            "C12_self_play_batches_encodable"]
 MODEL_TARGETS = ["model/Tak.vo", "model/SelfPlay.vo", "model/Batch.vo", "model/Harness.vo", "model/Lit.vo"]
 TRUSTED_BASE = [
     "torch tensors as lists: torch.cat / list comprehension order, boolean-mask indexing, in-place += and /= on rows "
@@ -201,6 +203,10 @@ def _gen_logs(rng, quick, force_repeats=False):
         tr.result = rng.choice([None, tak.Color.WHITE, tak.Color.BLACK])
         if tr.positions:
             logs.insert(rng.randint(0, len(logs)), tr)
+    if rng.random() < 0.4:
+        # what play_many returns has crossed a multiprocessing queue: equal but not interned Piece objects
+        import pickle
+        logs = pickle.loads(pickle.dumps(logs))
     return logs
 
 
